@@ -63,6 +63,9 @@ fn main() {
     ];
     let (mut runs, mut ok_runs) = (0u64, 0u64);
     let mut samples = vec![];
+    // "-o writes exactly the bytes otherwise sent to stdout": stdout of the run without -o, per (document, other flags, selection)
+    let mut stdout_of: std::collections::HashMap<(String, u32, usize), Vec<u8>> = std::collections::HashMap::new();
+    let (mut newline_findings, mut first_newline): (u64, Option<String>) = (0, None);
     let fail = |msg: String| -> ! { println!("C19-BOUNDED VIOLATION: {msg}"); std::process::exit(1) };
     for (dname, src) in &docs {
         let path = root.join(format!("{dname}.wac"));
@@ -95,6 +98,15 @@ fn main() {
                 Ok(bytes) => {
                     if !o.status.success() { fail(format!("{inv}: the library pipeline succeeds but the process exited {:?}: {}", o.status.code(), String::from_utf8_lossy(&o.stderr).chars().take(300).collect::<String>())); }
                     ok_runs += 1;
+                    if !to_file { stdout_of.insert((dname.to_string(), mask & 7, sel), o.stdout.clone()); }
+                    else if let (Some(so), Ok(fb)) = (stdout_of.get(&(dname.to_string(), mask & 7, sel)), fs::read(&out)) {
+                        if *so != fb {
+                            // recorded finding: with -t the text on stdout ends with a newline that the -o file does not have
+                            let mut with_nl = fb.clone(); with_nl.push(b'\n');
+                            if wat_out && *so == with_nl { newline_findings += 1; if first_newline.is_none() { first_newline = Some(format!("{inv}: stdout has {} bytes, the -o file {}", so.len(), fb.len())); } }
+                            else { fail(format!("{inv}: the -o file ({} bytes) is not what is sent to stdout without -o ({} bytes)", fb.len(), so.len())); }
+                        }
+                    }
                     let produced = if to_file { if !o.stdout.is_empty() { fail(format!("{inv}: -o given but stdout is not empty")); } fs::read(&out).unwrap_or_else(|_| fail(format!("{inv}: -o given but no file was written"))) } else { o.stdout.clone() };
                     if !wat_out {
                         if &produced != bytes { fail(format!("{inv}: the bytes written ({} bytes) differ from the library's ({} bytes)", produced.len(), bytes.len())); }
@@ -190,5 +202,7 @@ fn main() {
     }
     let _ = fs::remove_dir_all(&root);
     if samples.is_empty() { samples.push("(none)".into()); }
-    println!("C19-CLI ok {{\"bounded\": true, \"evaluations\": {runs}, \"distinct_nontrivial\": {ok_runs}, \"samples\": {:?}}}", samples);
+    if let Some(f) = &first_newline { println!("FINDING t-stdout-trailing-newline {newline_findings} invocations, e.g. {f}"); }
+    println!("C19-CLI {} {{\"bounded\": true, \"evaluations\": {runs}, \"distinct_nontrivial\": {ok_runs}, \"samples\": {:?}}}", if newline_findings > 0 { "findings" } else { "ok" }, samples);
+    if newline_findings > 0 { std::process::exit(3); }
 }
